@@ -75,6 +75,11 @@ def gen_scenario(rnd, n=None, nsig=3, nevents=6, shape=None, host='HsmEventProce
 
 
 # ------------------------------------------------------------------ reference semantics (from the property text)
+def name_of_state(sc, s):
+    dup = sc.get('same_name_as') or {}
+    return 'st%d' % dup.get(str(s), s)
+
+
 def lca_for(parent, S, T):
     if S == T:
         return parent[S]
@@ -204,9 +209,14 @@ def build_handlers(sc, rec, miros):
             return return_status.SUPER
         handler.__name__ = names[s]
         handler.__qualname__ = names[s]
+        dup = sc.get('same_name_as')
+        if dup and str(s) in dup:
+            # two distinct state functions may carry the same __name__ (methods of different classes, closures ...)
+            handler.__name__ = names[dup[str(s)]]
         return handler
 
     raw = [make(s) for s in range(n)]
+    names = [f.__name__ for f in raw]          # the names the functions really carry (two may share one)
     if sc.get('plain_decorator'):
         # state functions carrying some other functools.wraps decorator (not spy_on): still undecorated for miros
         import functools
@@ -289,7 +299,7 @@ def check_uml(sc, res, aspects=('actions', 'offers', 'state')):
         return False, 'start_at(%d): actions %s, UML order is %s' % (sc['start'], st['actions'], log), 'start_at'
     if 'state' in aspects and st['cur'] != cur:
         return False, 'start_at(%d): rests in %s, expected %s' % (sc['start'], st['cur'], cur), 'start_at'
-    if 'names' in aspects and (st['state_name'] != 'st%d' % cur or not st['state_fn_ok']):
+    if 'names' in aspects and (st['state_name'] != name_of_state(sc, cur) or not st['state_fn_ok']):
         return False, 'start_at: state_name=%r, current state is st%d' % (st['state_name'], cur), 'start_at'
     for k, sg in enumerate(sc['events']):
         new, log, offers, outcome = expected_step(sc, cur, sg)
@@ -304,7 +314,7 @@ def check_uml(sc, res, aspects=('actions', 'offers', 'state')):
                     'dispatch'
         if 'state' in aspects and st['cur'] != new:
             return False, 'event #%d %s in state %d: rests in %s, expected %s' % (k, sg, cur, st['cur'], new), 'dispatch'
-        if 'names' in aspects and (st['state_name'] != 'st%d' % new or not st['state_fn_ok']):
+        if 'names' in aspects and (st['state_name'] != name_of_state(sc, new) or not st['state_fn_ok']):
             return False, 'event #%d %s: state_name=%r state_fn ok=%s, current state is st%d' % (
                 k, sg, st['state_name'], st['state_fn_ok'], new), 'dispatch'
         if 'ignored' in aspects and bool(st['ignored']) != (outcome == 'ignored'):
